@@ -20,7 +20,9 @@ CHECKS = {
             "Acceptance is a universally quantified claim over inputs; small-scope exhaustive enumeration with the real stages as "
             "transitions meets every shape up to the bound instead of the ~35 graphs of the suite.",
             "bounded scope; random graphs of the quantifier replaced by the exhaustive deviation-bounded family"),
-    "C03": ("exhaustive enumeration of closed CFGs; the structuredness definition evaluated on every level of every resulting hierarchy",
+    "C03": ("exhaustive enumeration of closed CFGs (E(n) under every naming of the small classes, LX, ARMS, BIG, deviation-bounded and "
+            "front-end families); the structuredness definition evaluated on every level of every resulting hierarchy, declared and "
+            "effective continuations of branch arms",
             "The definition of 'structured' is evaluated as such on every level of every hierarchy produced from the enumerated inputs.",
             "bounded scope"),
     "C04": ("exhaustive enumeration of closed CFGs x stage prefixes; consistency invariant evaluated on every region and edge; "
@@ -69,20 +71,23 @@ CHECKS = {
             "bound) is executed and the exact canonical dump compared.",
             "hash randomisation acts only through set iteration order; deviation bound d <= 2"),
     "C13": ("exhaustive enumeration of ALL small digraphs (ordered target lists incl. duplicates, self loops, external targets) and all "
-            "subsets; every query compared with a definition-level reference",
+            "subsets; every query compared with a definition-level reference; exhaustive histories query-all / one edit through each "
+            "public mutator / query-all on the same object",
             "Queries are pure functions of a small graph: the input space up to the bound is enumerated completely.",
             "bounded node count (3 nodes x lists<=3, 4 nodes x lists<=2) plus level graphs of restructured E(n)"),
     "C14": ("explicit-state BFS over edit-operation sequences with canonical-dump deduplication, each transition the real method, compared "
-            "in lock-step with a plain-dict reference model; product construction for path preservation",
+            "in lock-step with a plain-dict reference model; product construction for path preservation; initial states: flat, "
+            "loop-restructured and fully restructured graphs under several namings incl. generator-style names",
             "Histories of edit operations with all P/S choices up to the bound are explored exhaustively, from flat graphs and from "
             "loop-restructured graphs (region and branching-synthetic predecessors).",
             "depth and subset-size bounds (DESIGN 4/C14)"),
-    "C17": ("exhaustive enumeration of graphs x stage prefixes (and skeleton bytecode functions); the DOT source is parsed and compared "
-            "with the hierarchy",
+    "C17": ("exhaustive enumeration of graphs x stage prefixes (skeleton bytecode functions; source graphs whose statement texts contain "
+            "formatter / DOT metacharacters); the DOT source is parsed and compared with the hierarchy",
             "Every rendering of every enumerated hierarchy is compared node by node, cluster by cluster, edge by edge.",
             "DOT text only; graphviz package's own quoting is trusted"),
     "C15": ("exhaustive exploration of histories: stage pipeline with all placements of <= 2 dict/YAML write-read round trips in the gaps, over "
-            "exhaustively enumerated graphs; each round trip is the real writer + reader; field-by-field comparison incl. successor order",
+            "exhaustively enumerated graphs (closed CFGs under several namings, and ALL small digraphs incl. non-closed ones); each round "
+            "trip is the real writer + reader; field-by-field comparison incl. successor order; what was written must not change later",
             "Histories (stage prefixes interleaved with round-trip chains) are enumerated completely within the deviation bound.",
             "at most 2 round trips per history; AST payload outside the domain"),
     "C18": ("explicit-state BFS over name-request sequences; exhaustive histories (stages interleaved with reloads) with the name generator "
@@ -92,7 +97,7 @@ CHECKS = {
             "invariant evaluated at the moment a name is handed out.",
             "wrapping happens inside the checker process; bounded depth / reloads"),
     "C16": ("exhaustive enumeration of closed CFGs x {input, J, JL, JLB}; iterator and concealed view of every (sub)graph compared "
-            "with the hierarchy",
+            "with the hierarchy; view objects taken at one stage are traversed again after the next (history)",
             "Every sub-region at every depth of every enumerated hierarchy is iterated and compared.", "bounded scope"),
 }
 
